@@ -158,6 +158,17 @@ fn run_local(ctx: &mut Ctx, content: Arc<Vec<u8>>, ranges: Vec<(u64, usize)>, si
         ctx.verdict.sample = Some(desc.clone());
     }
     let first_short = ranges.iter().position(|&(o, s)| eof_at.map(|e| o + s as u64 > e).unwrap_or(false));
+    // one read call fails with Interrupted (or another transient kind), in the middle of a range
+    // if the drawn call falls there: a reader may give up with an error or carry on exactly
+    let read_fault = if eof_at.is_none() && gen::chance(1, 6) {
+        let kind = *gen::t(|t| t.pick(&[std::io::ErrorKind::Interrupted, std::io::ErrorKind::Interrupted, std::io::ErrorKind::WouldBlock, std::io::ErrorKind::Other]));
+        let k = gen::draw(40) as u64;
+        file.with(|g| g.read_fault = Some((k, kind)));
+        Some((k, kind))
+    } else {
+        None
+    };
+    let file_probe = file.clone();
     let ranges2 = ranges.clone();
     // a reader that has been used before: its position is wherever the last call left it
     let warm_up: Option<(u64, usize)> = if gen::chance(1, 3) && !content.is_empty() {
@@ -231,6 +242,38 @@ fn run_local(ctx: &mut Ctx, content: Arc<Vec<u8>>, ranges: Vec<(u64, usize)>, si
     };
     if eof_at.is_some() {
         simkit::count("fault:EarlyEofLocal");
+    }
+    if read_fault.is_some() {
+        // relaxed, narrowly: every delivered item is the exact bytes of its range, in order; an
+        // error may end the stream if the fault fired; nothing else
+        let fired = file_probe.with(|g| g.read_fault.is_none());
+        let mut i = 0usize;
+        for it in &items {
+            match it {
+                Item::Data(d) => {
+                    let ok = ranges.get(i).map(|&(o, s)| content.get(o as usize..o as usize + s).map(|w| w == &d[..]).unwrap_or(false)).unwrap_or(false);
+                    if !ok {
+                        ctx.fail("wrong-bytes", format!("item #{} ({} bytes) is not the bytes of its range after a read of the file failed with {:?}; {}", i, d.len(), read_fault, desc));
+                        return;
+                    }
+                    i += 1;
+                }
+                Item::Err(_) => {
+                    if !fired {
+                        ctx.fail("unexpected-error", format!("an error although no read had failed yet; {}", desc));
+                        return;
+                    }
+                    break;
+                }
+            }
+        }
+        if !items.iter().any(|x| matches!(x, Item::Err(_))) && i != ranges.len() {
+            ctx.fail("stream-ended-early", format!("{} of {} ranges delivered and no error; {}", i, ranges.len(), desc));
+            return;
+        }
+        ctx.verdict.nontrivial = fired;
+        ctx.verdict.shape = ranges.len() as u64 ^ (3 << 21);
+        return;
     }
     if check_items(ctx, &items, &content, &ranges, upto, first_short.is_some(), &desc) {
         ctx.verdict.nontrivial = ranges.len() >= 2;
